@@ -257,7 +257,7 @@ def run_impl9(prog, deep=True, params=None):
         except NotImplementedError:
             out = {"err": "OtherError"}
         except Exception as e:  # noqa: BLE001
-            out = {"err": type(e).__name__}
+            out = {"err": cg.err_name_for(op, e)}
         snap = []
         if is_rw:
             if "ok" in out:
